@@ -6,7 +6,7 @@ set -e
 cd "$(dirname "$0")"
 mkdir -p .build evidence replays
 cd coq
-coq_makefile -f _CoqProject -o Makefile > /dev/null
+python3 -c "import sys; sys.path.insert(0, \"../lib\"); import vv; vv.coq_makefile()"
 timeout 3000 make -k -j16 > ../.build/setup-coq.log 2>&1 || { tail -30 ../.build/setup-coq.log; echo "setup: coq build had failures (checks will report them)"; }
 cd ..
 python3 - <<'PY' || echo "setup: warm-up of the C++ cache failed (checks will rebuild)"
